@@ -636,3 +636,7 @@ def ail2_post(ctx, st, result):
 
 UNITS.append(Unit("C16", "jsonargparse._link_arguments:ActionLink.apply_instantiation_links", ail2_setup, ail2_post, ail_raises, label="order-of-application", max_paths=200,
                   trusted=["ActionLink.reorder: its own unit", "get_link_actions: its own unit (C15)", "set_target_value: its own unit (C15)"]))
+
+
+from contracts.link_helpers import find_subclass_action_or_class_group_unit, get_nested_links_unit  # noqa: E402
+UNITS += [find_subclass_action_or_class_group_unit("C16"), get_nested_links_unit("C16")]
